@@ -5,7 +5,7 @@ Expressions
   ("int", n) ("big", n) ("float", x) ("byte", n) ("bool", b) ("str", s) ("nil",)
   ("var", name) ("bin", op, a, b) ("neg", a) ("not", a)
   ("call", f, [args]) ("selfcall", [args])
-  ("index", a, i) ("list", [elems]) ("method", obj, name, [args]) ("field", obj, name)
+  ("index", a, i) ("list", [elems]) ("maplit", ktype, vtype, [(k, v)]) ("method", obj, name, [args]) ("field", obj, name)
   ("get", a) ("or", a, b) ("unwrap", name, e) ("is", a, b)
   ("fn", [(pname, ptype)], rettype|None, [stmts]) ("new", cls, [args])
   ("typeof", a)  (printer only)
@@ -81,6 +81,8 @@ def pe(e):
         return f"{ppost(e[1])}[{pe(e[2])}]"
     if t == "list":
         return "[" + ", ".join(pe(x) for x in e[1]) + "]"
+    if t == "maplit":
+        return f"map[{e[1]}, {e[2]}]{{" + ", ".join(f"{pe(k)}: {pe(v)}" for k, v in e[3]) + "}"
     if t == "method":
         return f"{ppost(e[1])}.{e[2]}({', '.join(pe(a) for a in e[3])})"
     if t == "field":
@@ -332,6 +334,10 @@ def free_vars_of_fn(params, body):
         elif t == "list":
             for a in e[1]:
                 ex(a)
+        elif t == "maplit":
+            for k_, v_ in e[3]:
+                ex(k_)
+                ex(v_)
         elif t == "method":
             ex(e[1])
             for a in e[3]:
@@ -746,6 +752,12 @@ class Interp:
             return a is b
         if t == "list":
             return MList([self.ev(x) for x in e[1]])
+        if t == "maplit":
+            m = MMap()
+            for k_, v_ in e[3]:
+                kk = self.ev(k_)
+                m.d[kk] = self.ev(v_)
+            return m
         if t == "index":
             obj = self.ev(e[1])
             idx = self.ev(e[2])
@@ -865,6 +877,9 @@ class Interp:
                 other = args[0]
                 it.extend(other.items)
                 return None
+        if isinstance(obj, MMap):
+            if mname == "len":
+                return len(obj.d)
         if isinstance(obj, str):
             if mname == "len":
                 return len(obj.encode("utf-8"))
